@@ -28,6 +28,10 @@
 (*   "goint"    the integer 5 (or 3000000000 if big) as Go type g          *)
 (*   "nilitem"  the natural list with its second element nil               *)
 (*   "wrongitem" ... with its second element a value of a foreign kind     *)
+(*   "goleaf"   the abstract leaf value val (int 5, float 1.5, a boolean,  *)
+(*              the string "sv", or null = a nil pointer) delivered in the *)
+(*              Go representation g (float32, *bool, uint16, *string ...): *)
+(*              the serialisation depends on the value, not on the carrier *)
 (*   "titems"   the natural list, every ITEM delivered as a deferred value *)
 (*              (transparent: the response is that of the plain list)      *)
 (*   rt |-> runtime type name for abstract positions ("" = unresolvable),  *)
@@ -209,6 +213,7 @@ ExecField(E, ot, g, src, path) ==
                \* 5, or 3000000000 when big; a nil pointer is null
                [] oc.k = "goint" -> CompleteV(E, fd.type, g, IF oc.g = "nilp" THEN NullV
                                                                   ELSE IntV(IF oc.big THEN "over32" ELSE "5"), path)
+               [] oc.k = "goleaf" -> CompleteV(E, fd.type, g, oc.val, path)
                [] oc.k = "badenum" -> CompleteV(E, fd.type, g, [k |-> "eint", v |-> "nope"], path)
                [] oc.k = "wrongitem" ->
                     LET nv == ValueFor(E.S, fd.type, ctag, fn, oc)
